@@ -61,7 +61,12 @@ func runWorker(e *Env, ses *workerlib.Session, maxprocs int, timeout time.Durati
 	if maxprocs <= 0 {
 		maxprocs = 2
 	}
-	cmd.Env = append(os.Environ(),
+	if ses.Mode == "cover" {
+		cmd.Env = append(os.Environ(), "VERIF_UNMANAGED=1")
+	} else {
+		cmd.Env = os.Environ()
+	}
+	cmd.Env = append(cmd.Env,
 		fmt.Sprintf("GOMAXPROCS=%d", maxprocs),
 		"GOTRACEBACK=single",
 		"GORACE=suppress_equal_stacks=0 suppress_equal_addresses=0 atexit_sleep_ms=0 halt_on_error=0 history_size=3 log_path="+logPrefix)
